@@ -11,7 +11,6 @@ pub fn rkyv_to_bytes_metadata(m: &Metadata) -> (r: Result<AlignedVec, ()>)
 
 impl AlignedVec {
     pub fn len(&self) -> (r: usize) ensures r == self@.len() { self.v.len() }
-    pub fn as_slice(&self) -> (r: &[u8]) ensures r@ == self@ { self.v.as_slice() }
 }
 
 // `dst[a..a + src.len()].copy_from_slice(src)`
